@@ -1038,6 +1038,14 @@ fn gen_c12(r: &mut Rng, _t: Tier, _job: u64) -> Plan {
             },
         );
     }
+    if r.chance(1, 10) {
+        // an operation on an id that is not open: whatever the server does with it, it must
+        // not go back to waiting with bytes it has written but not flushed
+        insert_dead_op(r, &mut cmds);
+        let mut p = finish_plan(r, cmds);
+        p.arrival = if r.coin() { Arrival::lockstep() } else { Arrival::upfront() };
+        return p;
+    }
     let mut p = finish_plan(r, cmds);
     // arrival styles biased towards lock-step and odd batch sizes
     p.arrival = match r.weighted(&[40, 20, 30, 10]) {
